@@ -194,7 +194,7 @@ Section C16Root.
      — consistent with a history of tree batches (so its root is the SMT root of its state), tree-state record at the
      application height, and every earlier state of the chain still reachable by Revert / Init *)
   Theorem C16_every_reachable_db_is_good : forall a H F, reach a H F ->
-    exists sts, Good a H sts /\ length sts = S (N.to_nat (H - F)) /\ F <= H /\ diff_at (a_diffs a) F = None.
+    exists sts, Good a H sts /\ length sts = S (N.to_nat (H - F)) /\ F <= H.
   Proof. exact (reach_good hash enc TR R root_eqb tree_update tree_root tree_empty U hash_len hash_wfb hash_inj_U enc_len enc_inj root_eqb_spec H_C10 empty_root empty_root_spec). Qed.
 End C16Root.
 
@@ -213,7 +213,7 @@ Theorem C16_composed_with_C10 :
     forall a H F,
       reach hash enc (@T bytes) Hsh heqb (batch_update tkbits) (Tree.hash hempty hleaf hbranch) E U hempty a H F ->
       exists sts, Good hash enc (@T bytes) Hsh (batch_update tkbits) (Tree.hash hempty hleaf hbranch) E U hempty a H sts /\
-                  length sts = S (N.to_nat (H - F)) /\ F <= H /\ diff_at (a_diffs a) F = None.
+                  length sts = S (N.to_nat (H - F)) /\ F <= H.
 Proof.
   intros hash enc U Hsh hempty hleaf hbranch heqb H1 H2 H3 H4 H5 Hq a H F Hr.
   exact (reach_good hash enc (@T bytes) Hsh heqb (batch_update tkbits) (Tree.hash hempty hleaf hbranch) E U H1 H2 H3 H4 H5 Hq
@@ -232,7 +232,7 @@ Definition fh_eqb (a b : fh) : bool := if fh_eq_dec a b then true else false.
 Theorem C16_hypotheses_consistent : forall a H F,
   reach hash_toy enc8 (@T bytes) fh fh_eqb (batch_update tkbits) (Tree.hash FE FL FB) E U_toy FE a H F ->
   exists sts, Good hash_toy enc8 (@T bytes) fh (batch_update tkbits) (Tree.hash FE FL FB) E U_toy FE a H sts /\
-              length sts = S (N.to_nat (H - F)) /\ F <= H /\ diff_at (a_diffs a) F = None.
+              length sts = S (N.to_nat (H - F)) /\ F <= H.
 Proof.
   apply (C16_composed_with_C10 hash_toy enc8 U_toy fh FE FL FB fh_eqb
            hash_toy_len hash_toy_wfb hash_toy_inj_U enc8_len enc8_inj).
@@ -254,11 +254,13 @@ Proof.
   destruct (commit hash_toy enc8 fh_eqb (batch_update tkbits) (Tree.hash FE FL FB) f c 1 (Tree.hash FE FL FB (a_tree f)) None false) as [a r| | |] eqn:Ec;
     try (vm_compute in Ex; inversion Ex; subst; vm_compute in Ec; discriminate).
   exists a, r. split.
-  - apply (rc_block hash_toy enc8 (@T bytes) fh fh_eqb (batch_update tkbits) (Tree.hash FE FL FB) E U_toy FE f 0 0 [t] c v None a r).
+  - apply (rc_block hash_toy enc8 (@T bytes) fh fh_eqb (batch_update tkbits) (Tree.hash FE FL FB) E U_toy FE f 0 0 c None a r).
     + apply rc_fresh.
-    + repeat constructor; simpl; auto; try (exists ([0; 0; 0; 1; 0; 0] ++ repeat 7 32); split; [reflexivity | simpl; lia]);
-        try (unfold U_toy; split; [repeat constructor; lia | reflexivity]); repeat constructor; lia.
-    + exact Ex.
+    + apply (block_cache_good (ukey U_toy) (a_state f) 1 [t] [] no_snaps c v); auto.
+      * repeat constructor; simpl; auto; try (exists ([0; 0; 0; 1; 0; 0] ++ repeat 7 32); split; [reflexivity | simpl; lia]);
+          try (unfold U_toy; split; [repeat constructor; lia | reflexivity]); repeat constructor; lia.
+      * apply empty_cache_good.
+      * apply no_snaps_good.
     + reflexivity.
     + exact Ec.
   - vm_compute in Ex. inversion Ex; subst. vm_compute in Ec. inversion Ec; subst. vm_compute. repeat split; auto. discriminate.
